@@ -1,0 +1,72 @@
+//go:build verif
+
+package oidc
+
+// Comment-only file: declares nothing. The //@ lines are contracts read by /verif's govc
+// (verification-condition generator); they are checked against the bodies of the functions
+// they name on every run.
+
+// ---- C01: claim checks (pkg/oidc/verifier.go) ----
+//
+// wallclock is the ghost wall-clock: every time.Now() reading r satisfies
+// old(wallclock) <= r and sets wallclock = r. "sound" clauses use the earliest possible
+// reading, "complete" clauses the latest one.
+
+//@ func oidc.CheckSubject
+//@   requires valid(claims)
+//@   pure
+//@   ensures iff: err == nil <==> claims.GetSubject() != ""
+//@   ensures kind: err != nil ==> err == ErrSubjectMissing
+
+//@ func oidc.CheckIssuer
+//@   requires valid(claims)
+//@   modifies nothing
+//@   ensures iff: err == nil <==> claims.GetIssuer() == issuer
+//@   ensures kind: err != nil ==> isErr(err, ErrIssuerInvalid)
+
+//@ func oidc.CheckAudience
+//@   requires valid(claims)
+//@   modifies nothing
+//@   ensures iff: err == nil <==> contains(claims.GetAudience(), clientID)
+//@   ensures kind: err != nil ==> isErr(err, ErrAudience)
+
+//@ func oidc.CheckAuthorizedParty
+//@   requires valid(claims)
+//@   modifies nothing
+//@   ensures iff: err == nil <==> (len(claims.GetAudience()) > 1 ==> claims.GetAuthorizedParty() != "")
+//@                              && (claims.GetAuthorizedParty() == "" || claims.GetAuthorizedParty() == clientID)
+
+//@ func oidc.CheckExpiration
+//@   requires valid(claims)
+//@   modifies wallclock
+//@   ensures clock: old(wallclock) <= wallclock
+//@   ensures sound: err == nil ==> old(wallclock) + offset < claims.GetExpiration()
+//@   ensures complete: wallclock + offset < claims.GetExpiration() ==> err == nil
+//@   ensures kind: err != nil ==> err == ErrExpired
+
+//@ func oidc.CheckIssuedAt
+//@   requires valid(claims)
+//@   modifies wallclock
+//@   ensures clock: old(wallclock) <= wallclock
+//@   ensures sound-present: err == nil ==> claims.GetIssuedAt() != ZEROTIME
+//@   ensures sound-future: err == nil ==> claims.GetIssuedAt() <= wallclock + offset + 500000000
+//@   ensures sound-age: err == nil && maxAgeIAT != 0 ==> claims.GetIssuedAt() >= old(wallclock) - maxAgeIAT - 500000000
+//@   ensures complete: claims.GetIssuedAt() != ZEROTIME
+//@                     && claims.GetIssuedAt() <= old(wallclock) + offset - 500000000
+//@                     && (maxAgeIAT == 0 || claims.GetIssuedAt() >= wallclock - maxAgeIAT + 500000000)
+//@                     ==> err == nil
+//@   ensures kind: err != nil ==> err == ErrIatMissing || isErr(err, ErrIatInFuture) || isErr(err, ErrIatToOld)
+
+//@ func oidc.CheckNonce
+//@   requires valid(claims)
+//@   modifies nothing
+//@   ensures iff: err == nil <==> claims.GetNonce() == nonce
+
+//@ func oidc.CheckAuthTime
+//@   requires valid(claims)
+//@   modifies wallclock
+//@   ensures clock: old(wallclock) <= wallclock
+//@   ensures off: maxAge == 0 ==> err == nil
+//@   ensures sound: err == nil && maxAge != 0 ==> claims.GetAuthTime() != ZEROTIME
+//@                     && claims.GetAuthTime() >= old(wallclock) - maxAge - 500000000
+//@   ensures complete: claims.GetAuthTime() != ZEROTIME && claims.GetAuthTime() >= wallclock - maxAge + 500000000 ==> err == nil
